@@ -23,6 +23,9 @@ import (
 //       and wrong for anything else that can reach 2^(N-1) — a window size of 32768, a sequence number, a timestamp.
 //       Operands that are differences, constants, or provably below 2^(N-1) (masked, shifted right, a remainder by or a
 //       widening of something smaller) are accepted.
+//   J5  ordered comparison against a wrapping sum: `x < a+b` (or `a+b > x` …) on unsigned values of at most 32 bits
+//       where a+b can pass the top of the range. Sequence numbers and RTP timestamps live exactly there; the wrap-safe
+//       idioms compare a difference with a length, or count iterations with a separate index.
 //   K4  cross-append: `a.f = append(a.g, x)` with g ≠ f builds f's new contents on g's backing array: the history kept
 //       in f is replaced by g's, and the two fields then overwrite each other's elements. The base of an append whose
 //       result is stored to a field of long-lived state must be that same field (or fresh / local memory).
@@ -34,7 +37,7 @@ import (
 //       (`h[len(h)-max:]`), or one that itself repeats until the limit holds, is not subject to this.
 
 func init() {
-	registerEngine("LINT", []string{"J3", "K3", "J4", "K4", "E4"}, runEngineLint)
+	registerEngine("LINT", []string{"J3", "K3", "J4", "J5", "K4", "E4"}, runEngineLint)
 }
 
 // cycleAvoiding: block b lies on a CFG cycle that passes none of the blocks in avoid.
@@ -137,6 +140,7 @@ func runEngineLint(p *Prog, o *obls) {
 	remCount := map[string]int{}
 	loopCount := map[string]int{}
 	convCount := map[string]int{}
+	cmpCount := map[string]int{}
 	trimCount := map[string]int{}
 	appCount := map[string]int{}
 	pkgs := map[string]bool{}
@@ -186,6 +190,45 @@ func runEngineLint(p *Prog, o *obls) {
 				return
 			}
 			o.bad("J4", key, p.instrPos(cv), fmt.Sprintf("%s(%s) reinterprets an unsigned %d-bit magnitude (not a difference, not provably below 2^%d) as signed: values from %d up turn negative — the largest admitted window size or any sequence number in the upper half of the range then fails every ordered comparison", to.Name(), shortExpr(p, cv.X), bits, bits-1, int64(1)<<uint(bits-1)))
+		})
+		// ---- J5
+		instrsOf(fn, func(in ssa.Instruction) {
+			bo, ok := in.(*ssa.BinOp)
+			if !ok || (bo.Op != token.LSS && bo.Op != token.LEQ && bo.Op != token.GTR && bo.Op != token.GEQ) {
+				return
+			}
+			bt, ok := bo.X.Type().Underlying().(*types.Basic)
+			if !ok || bt.Info()&types.IsUnsigned == 0 || intBits(bt) > 32 {
+				return
+			}
+			cmpCount[pk]++
+			for _, side := range []ssa.Value{bo.X, bo.Y} {
+				sum, ok := p.origin(side).(*ssa.BinOp)
+				if ok && sum.Op == token.SUB {
+					if _, isC := p.origin(sum.Y).(*ssa.Const); !isC {
+						o.ok("J5", fmt.Sprintf("%s:cmp(%s)", funcKey(fn), shortExpr(p, side)), p.instrPos(bo), "wrap-safe form: a difference is compared with a length")
+					}
+					continue
+				}
+				if !ok || sum.Op != token.ADD {
+					continue
+				}
+				// a sum of two run-time quantities of this width (start + length) can pass the top of the range; x+const is
+				// left alone: it is the shape of every counted loop (`i+1 < n`), where x < n is known
+				if _, c1 := p.origin(sum.X).(*ssa.Const); c1 {
+					continue
+				}
+				if _, c2 := p.origin(sum.Y).(*ssa.Const); c2 {
+					continue
+				}
+				bits := intBits(bt)
+				if belowSignBit(p, sum.X, bits, 0) && belowSignBit(p, sum.Y, bits, 0) {
+					continue // both halves below 2^(N-1): the sum fits
+				}
+				key := fmt.Sprintf("%s:cmp(%s)", funcKey(fn), shortExpr(p, side))
+				o.bad("J5", key, p.instrPos(bo), fmt.Sprintf("ordered comparison %s %s %s of %d-bit unsigned values one of which is the sum %s: the sum wraps past the top of the range (a sequence-number run that crosses %d→0), and the comparison then has the opposite outcome; wrap-safe forms compare a difference (`a - b < n`) or count with a separate index",
+					shortExpr(p, bo.X), bo.Op, shortExpr(p, bo.Y), bits, shortExpr(p, side), (int64(1)<<uint(bits))-1))
+			}
 		})
 		// ---- K4
 		instrsOf(fn, func(in ssa.Instruction) {
@@ -389,6 +432,7 @@ func runEngineLint(p *Prog, o *obls) {
 		o.trivial("J3", pk+":inspected", "-", fmt.Sprintf("%d remainder operation(s) inspected", remCount[pk]))
 		o.trivial("K3", pk+":inspected", "-", fmt.Sprintf("%d range/counted loop(s) over slices inspected", loopCount[pk]))
 		o.trivial("J4", pk+":inspected", "-", fmt.Sprintf("%d same-width unsigned→signed conversion(s) of at most 32 bits inspected", convCount[pk]))
+		o.trivial("J5", pk+":inspected", "-", fmt.Sprintf("%d ordered comparison(s) of unsigned values of at most 32 bits inspected", cmpCount[pk]))
 		o.trivial("K4", pk+":inspected", "-", fmt.Sprintf("%d append(s) stored to slice fields inspected", appCount[pk]))
 		o.trivial("E4", pk+":inspected", "-", fmt.Sprintf("%d constant-step cut(s) of appended slice fields inspected", trimCount[pk]))
 	}
